@@ -1,6 +1,6 @@
 (** C15 — Skiplist iterators stay ordered and complete under concurrent modification.  Statements only. *)
 From Coq Require Import List Arith ZArith Lia Bool Sorting.Sorted.
-From NV Require Import Base.Sched Skip.Model Skip.Stmts Skip.Proofs.
+From NV Require Import Base.Sched Skip.Model Skip.Stmts Skip.Proofs Skip.IterStmts Skip.IterProofs.
 Import ListNotations.
 Open Scope Z_scope.
 
@@ -23,3 +23,40 @@ Theorem C15_l0_sorted : forall progs sched, let y := runS (init progs) sched in
             StronglySorted Z.lt (map (fun n => key (node (sh y) n)) c).
 Proof. exact l0_sorted. Qed.
 Print Assumptions C15_l0_sorted.
+
+(** COMPLETENESS — a scan cannot jump over an item that is there all the time.  For all programs, all
+    schedules, any refresh interval: thread i is between operations at steps a and b and has executed only
+    Next operations in between; node n is present (linked at level 0, unmarked) in EVERY state from a
+    to b; the iterator stood on a smaller key at a and stands behind n (or is exhausted) at b.  Then at
+    some step in between it stood on n with the operation completed: n's item was returned. *)
+Theorem C15_no_skip : forall progs sched a b i n ops ita itb,
+  (a <= b)%nat -> (b <= length sched)%nat ->
+  let ya := at_ progs sched a in let yb := at_ progs sched b in
+  idle ya i -> idle yb i -> consumed ya yb i ops -> Forall (fun o => o = ONext) ops ->
+  (forall j, (a <= j <= b)%nat -> present (sh (at_ progs sched j)) n) ->
+  it_pos ya i = Some ita -> it_valid ita = true -> it_curr ita <> tl_id ->
+  key (node (sh ya) (it_curr ita)) < key (node (sh ya) n) ->
+  it_pos yb i = Some itb ->
+  (it_curr itb = tl_id \/ key (node (sh yb) n) < key (node (sh yb) (it_curr itb))) ->
+  exists j itj, (a <= j <= b)%nat /\ idle (at_ progs sched j) i /\
+                it_pos (at_ progs sched j) i = Some itj /\ it_curr itj = n.
+Proof. exact iter_no_skip. Qed.
+Print Assumptions C15_no_skip.
+
+(** ... including the start of the scan: SeekFirst, or Seek x with x <= n's key, followed by Nexts *)
+Theorem C15_scan_complete : stmt_scan_complete.
+Proof. exact scan_complete. Qed.
+Print Assumptions C15_scan_complete.
+
+(** SOUNDNESS — whenever SeekFirst / Seek / Next completes standing on a node (not the tail), that
+    node was linked at level 0 at some moment of that very operation: only items that were in the list
+    during the operation are returned (a linked node may carry the mark of a delete that has not yet
+    returned: that delete is concurrent with the scan). *)
+Theorem C15_sound : stmt_iter_sound.
+Proof. exact iter_sound. Qed.
+Print Assumptions C15_sound.
+
+(** non-vacuity: a scan over {10,20,30} during which another goroutine deletes 20 — the second Next
+    finds the node marked, its help CAS fails, it re-searches — satisfies every hypothesis of C15_no_skip
+    for the node of key 30 *)
+Example C15_no_skip_nonvacuous := iter_no_skip_nonvacuous.
